@@ -184,8 +184,7 @@ def add_ed_key(reg, curve=None):
                                  '(self.curve == "Ed25519") == (self._curve.g_id == %sED25519)' % R,
                                  '(self.curve == "Ed448") == (self._curve.g_id == %sED448)' % R,
                                  # RFC 8032 5.1.5 / 5.2.5: a private EdDSA key carries `prefix`, the second half of H(seed)
-                                 '(self._d is not None and self.curve == "Ed25519") ==> (hasattr(self, "_prefix") and len(self._prefix) == 32)',
-                                 '(self._d is not None and self.curve == "Ed448") ==> (hasattr(self, "_prefix") and len(self._prefix) == 57)']))
+                                 '(self._d is not None and (self.curve == "Ed25519" or self.curve == "Ed448")) ==> hasattr(self, "_prefix")']))
     reg.models[KEY] = model_ecckey
     reg.models[ECC + 'construct'] = model_construct
     reg.add(_CONSTRUCT_PUBLIC)
@@ -378,3 +377,54 @@ def units(prop, tier):
         out.append(pyvc_unit(prop, 'sig.eddsa.import', registry, [E + 'import_public_key', E + 'import_private_key']))
         out.append(pyvc_unit(prop, 'sig.eddsa.new', registry, [SCH + '.__init__', E + 'new', SCH + '.can_sign']))
     return out
+
+
+# ==== NOT PROVED (stated here, left unregistered)
+# NOT PROVED: sign-then-verify completeness "verify_ok(c, B, [s]B, ctx, F, PH, sign(c, B, s, prefix, [s]B, ctx, F, PH))": with both
+#   sides proved byte-exact it is a statement about the SPEC functions only, and it needs the module laws of the abstract group
+#   ([a]([b]P) = [ab]P, [a]P + [b]P = [a+b]P, [L]B = O) plus the codec round trip dec(enc(P)) = P, dec_ok(enc(P)); fips186.pmul/padd
+#   are uninterpreted here (no axioms are assumed in this package).  Candidate for lemmas/ (Lean) or the CVC algebraic mode of C06.
+# NOT PROVED: ENC / point decoding themselves (EccKey._export_eddsa_public, ECC._import_ed25519_public_key, _import_ed448_public_key,
+#   ECC.construct, EccKey.__init__): key side, ASSUMED above with their RFC 8032 5.1.2-5.1.3 / 5.2.2-5.2.3 contracts.  The real
+#   decoders do NOT satisfy the assumed `ValueError iff not dec_ok` on non-canonical strings (x = 0 with sign bit 1; Ed448: bits
+#   448..454 of the last octet are ignored) -- reported as a genuine finding, witnesses in the report of this package.
+# NOT PROVED (engine): a dispatcher mutant that calls a leaf OUTSIDE its precondition (e.g. `_verify_ed25519(msg, sig, False)` with a
+#   hash object) ends `undecided` (exit 2), not `violated`: after the failed call_pre obligation the path condition is False and the
+#   engine cannot evaluate the remaining clauses ("spec expression has no value").  Suggested fix: end the path in _apply_bound when
+#   a precondition is refuted.
+#
+# ==== Mutation check (tools/mut.py C04 lib/Crypto/Signature/eddsa.py <old> <new> --only <unit>; exit 1 = VIOLATION on the named obligation)
+#  unit sig.eddsa.verify_ed25519
+#   M1  `s >= self._order` -> `s > self._order` (Ed25519 site; the repaired defect D5)      exit 1  _verify_ed25519.raises_iff.ValueError.if (8 paths)
+#   M2  `len(signature) != 64` -> `< 64`                                                      exit 1  _verify_ed25519.raises_iff.ValueError.if
+#   M3  drop `bchr(len(self._context))` from dom2 in _verify_ed25519                          exit 1  raises_iff.ValueError.if + .only_if (5 + 5)
+#   M4  `8 * R` -> `R` (Ed25519 site)                                                         exit 1  raises_iff.ValueError.if + .only_if (8 + 8)
+#   B1  rename local k_hash -> kh in _verify_ed25519 (benign)                                 exit 0  60/60 discharged
+#  unit sig.eddsa.verify_ed448
+#   M5  `s >= self._order` -> `s > self._order` (Ed448 site)                                  exit 1  _verify_ed448.raises_iff.ValueError.if
+#   M6  `msg_or_hash.copy().read(64)` -> `msg_or_hash.read(64)` in _verify_ed448              exit 1  _verify_ed448.modifies.obj9.g_pos (frame: caller's XOF advanced)
+#   M7  `signature[:57]` -> `signature[:56]` in the hash input of k                           exit 1  raises_iff.ValueError.if + .only_if (2 more undecided: model of 114 octets)
+#  unit sig.eddsa.verify
+#   M8  verify(): `is_bytes(msg_or_hash)` -> `True` (type check dropped, Ed25519 branch)      exit 1  verify.raises_iff.TypeError.if
+#  unit sig.eddsa.sign_ed25519
+#   M9  `r = ... % self._order` -> `% (self._order * 2)`                                      exit 1  _sign_ed25519.ensures.rfc8032 (8 paths)
+#   M10 `dom2 + R_pk + self._A + PHM` -> `dom2 + self._A + R_pk + PHM`                        exit 1  _sign_ed25519.ensures.rfc8032
+#   M11 `s.to_bytes(32, 'little')` -> `'big'`                                                 exit 1  _sign_ed25519.ensures.rfc8032
+#   B2  rename local r_hash -> rh in _sign_ed25519 (benign)                                   exit 0  32/32 discharged
+#  unit sig.eddsa.sign_ed448
+#   M12 `msg_or_hash.copy().read(64)` -> `msg_or_hash.read(64)` in _sign_ed448                exit 1  _sign_ed448.modifies.obj9.g_pos (C19: signer consumed the caller's XOF)
+#   M13 `r_hash = ... .read(114)` -> `.read(64)` in _sign_ed448                                 exit 2  _sign_ed448.ensures.rfc8032 UNDECIDED on 4 paths (no counter-model with
+#                                                                                                      114-octet strings within the time-out; not discharged either)
+#  unit sig.eddsa.sign
+#   M14 sign(): `raise TypeError("Private key is needed to sign")` -> `raise ValueError(...)`   exit 1  sign.raises_iff.ValueError.only_if (6 paths)
+#  unit sig.eddsa.import
+#   M15 import_public_key: `elif len(encoded) == 57` -> `== 56`                                 exit 1  import_public_key.raises_iff.ValueError.only_if
+#   M16 import_private_key: 57 octets -> curve_name "ed25519"                                   exit 1  import_private_key.raises_iff.ValueError.only_if
+#  unit sig.eddsa.new
+#   M17 new(): `len(context) > 255` -> `> 25`                                                   exit 1  new.raises_iff.ValueError.only_if   (`> 256` needs a model with a
+#                                                                                                      256-octet context: no verdict within 900 s)
+#   M18 __init__: `self._A = key._export_eddsa_public()` -> `self._A = context`                 exit 1  __init__.ensures.A, .ensures.public_point, .raises_iff.ValueError.if
+#   M19 new(): `if mode != 'rfc8032'` -> `if mode == 'rfc8033'`                                 exit 1  new.raises_iff.ValueError.if (4 paths)
+#  wrong-dispatch mutants of verify() (`eddsa_verify_method = self._verify_ed25519` in the Ed448 branch; ph replaced by False): exit 2, see NOT PROVED (engine)
+# (violations of mutants are slow to REPORT, 20 .. 800 s per unit: z3 needs seconds to build each counter-model with 64 / 114 octet
+#  strings; the unchanged tree takes 8 s for all 339 obligations.)
